@@ -67,6 +67,10 @@ func containsStr(s, sub string) bool {
 
 func c22Gen(rng *core.Rng, tier string) *harness.Plan {
 	p := &harness.Plan{Seed: rng.Uint64(), Params: map[string]int64{}}
+	if rng.Chance(0.3) {
+		c22MemGen(rng, tier, p) // consensus operations on the membership rig, see c22mem.go
+		return p
+	}
 	baseClusterParams(rng, p)
 	dur := 30 * time.Second
 	if tier == "thorough" {
@@ -102,6 +106,9 @@ func c22Gen(rng *core.Rng, tier string) *harness.Plan {
 }
 
 func c22Exec(p *harness.Plan) *harness.Outcome {
+	if p.P("mem", 0) == 1 {
+		return c22MemExec(p)
+	}
 	r, err := newClusterRun("C22", p)
 	if err != nil {
 		o := harness.NewOutcome()
